@@ -204,6 +204,9 @@ async def _caller(sim, cspec, cmds, rec):
                     await asyncio.sleep(c["d"])
                 elif c["k"] == "progress":
                     continue
+                elif c["k"] == "power":
+                    # the interface's bus power supply switched inside the caller's own transaction
+                    await d.power_supply(bool(c.get("on", True)), in_transaction=True)
                 else:
                     if cspec.get("raise_at") == i:
                         raise ScriptedError("scripted failure at step %d" % i)
@@ -237,7 +240,7 @@ def run(case, hooks=None):
         for ci, cspec in enumerate(case["callers"]):
             cmds = []
             for c in cspec["cmds"]:
-                if c["k"] in ("sleep", "progress"):
+                if c["k"] in ("sleep", "progress", "power"):
                     cmds.append(None)
                     continue
                 cmd = build_cmd(c)
